@@ -350,7 +350,7 @@ def run_C04(ctx):
 
 def run_C03(ctx):
     q = not ctx.thorough
-    consts = mc_constants(ctx, qs=('{1, 3}' if q else '{1, 2, 3}'), ys='{4, 11}', mod=(12 if q else 4), cfgmod=(5 if q else 1))
+    consts = mc_constants(ctx, qs=('{1, 3}' if q else '{1, 2, 3}'), ys='{4, 11}', mod=(12 if q else 8), cfgmod=(5 if q else 3))
     res = run_mc(ctx, 'c03.cfg', consts,
                  ['IgnoredIrrelevant', 'LimitNeverInLSQ', 'ZeroConfidenceIsUnused', 'PenaltyOnlyOnForbiddenSide',
                   'Flag4EqFlag1', 'EmitInv'])
